@@ -732,6 +732,12 @@ MUTANTS = [
         }
         return false;""",
         """        return end_of_input_tls.get() != nullptr;""")]),
+    dict(name='c11-seed4-capacity-from-the-last-allocated-segment', prop='C11', clause='D5', edits=[('include/oneapi/tbb/detail/_segment_table.h',
+        '        segment_table_type table = get_table();\n        size_type num_segments = number_of_segments(table);\n        for (size_type seg_index = 0; seg_index < num_segments; ++seg_index) {\n            // Check if the pointer is valid (allocated)\n            if (table[seg_index].load(std::memory_order_relaxed) <= segment_allocation_failure_tag) {\n                return segment_base(seg_index);\n            }\n        }\n        return segment_base(num_segments);',
+        '        return segment_base(find_last_allocated_segment(get_table()));')]),
+    dict(name='c11-capacity-scan-skips-failed-entries', prop='C11', clause='D5', edits=[('include/oneapi/tbb/detail/_segment_table.h',
+        '        segment_table_type table = get_table();\n        size_type num_segments = number_of_segments(table);\n        for (size_type seg_index = 0; seg_index < num_segments; ++seg_index) {\n            // Check if the pointer is valid (allocated)\n            if (table[seg_index].load(std::memory_order_relaxed) <= segment_allocation_failure_tag) {\n                return segment_base(seg_index);\n            }\n        }\n        return segment_base(num_segments);',
+        '        segment_table_type table = get_table();\n        size_type num_segments = number_of_segments(table);\n        for (size_type seg_index = 0; seg_index < num_segments; ++seg_index) {\n            // Check if the pointer is valid (allocated)\n            if (table[seg_index].load(std::memory_order_relaxed) <= segment_allocation_failure_tag) {\n                if (table[seg_index].load(std::memory_order_relaxed) == nullptr) return segment_base(seg_index);\n            }\n        }\n        return segment_base(num_segments);')]),
     dict(name='c01-seed3-run-and-wait-handle-epilogue-on-exception-only', prop='C01', clause='D9', edits=[('include/oneapi/tbb/task_group.h',
         """            execute_and_wait(*acs::release(h), context(), m_wait_vertex.get_context(), context());
         }).on_completion([&] {""",
@@ -1687,6 +1693,9 @@ BENIGN = [
                     my_filter->my_input_buffer->clear_my_tls_end_of_input();
                 }
                 my_pipeline.end_of_input.store(true, std::memory_order_relaxed);""")]),
+    dict(name='c11-b-capacity-scan-with-break', prop='C11', edits=[('include/oneapi/tbb/detail/_segment_table.h',
+        '        segment_table_type table = get_table();\n        size_type num_segments = number_of_segments(table);\n        for (size_type seg_index = 0; seg_index < num_segments; ++seg_index) {\n            // Check if the pointer is valid (allocated)\n            if (table[seg_index].load(std::memory_order_relaxed) <= segment_allocation_failure_tag) {\n                return segment_base(seg_index);\n            }\n        }\n        return segment_base(num_segments);',
+        '        segment_table_type table = get_table();\n        size_type num_segments = number_of_segments(table);\n        size_type seg_index = 0;\n        for (; seg_index < num_segments; ++seg_index) {\n            // Check if the pointer is valid (allocated)\n            if (!(table[seg_index].load(std::memory_order_relaxed) > segment_allocation_failure_tag)) {\n                break;\n            }\n        }\n        return segment_base(seg_index);')]),
     dict(name='c01-b-group-wait-epilogue-in-a-named-lambda', prop='C01', edits=[('include/oneapi/tbb/task_group.h',
         """        try_call([&] {
             d1::wait(m_wait_vertex.get_context(), context());
